@@ -784,6 +784,8 @@ def rule_r8(ctx) -> List[R.Inst]:
         # a use is guarded when it is the left operand of `or <non-empty>` or sits under an `if self.<f>` / conditional expression on it
         def is_guarded(u):
             for p_ in ast.walk(body.node):
+                if isinstance(p_, (ast.If, ast.IfExp, ast.While)) and (p_.test is u or (isinstance(p_.test, ast.UnaryOp) and p_.test.operand is u)):
+                    return True          # the emptiness test itself: not a written value
                 if isinstance(p_, ast.BoolOp) and isinstance(p_.op, ast.Or) and p_.values and p_.values[0] is u:
                     return True
                 if isinstance(p_, (ast.If, ast.IfExp)) and C.self_attr(p_.test) == f and any(x is u for x in ast.walk(p_)) and p_.test is not u:
